@@ -1092,6 +1092,8 @@ class Line:
         self.file = file
         self.number = number
         self.contents = contents
+        # resolved path of the file named by an include_bytes line (set by the reader)
+        self.include_path = None
 
     def __len__(self):
         return len(self.contents)
@@ -2147,6 +2149,8 @@ def read_lines(path_or_source, *, include=False, include_dirs=None):
 
             # modify the line by appending the size to the end (too hacky?)
             line.contents = '{} {}'.format(raw_line, size)
+            # remember where the file was found (the path as written is relative to the search dirs, not the cwd)
+            line.include_path = include_path
             lines.append(line)
         else:
             lines.append(line)
@@ -2260,7 +2264,8 @@ def parse_item(line_tokens):
             raise AssemblerError('include_bytes must specify a file', line)
         _, path, size = tokens
         size = int(size, base=0)
-        return IncludeBytes(line, path, size)
+        # read the content from where the reader found the file
+        return IncludeBytes(line, line.include_path, size)
     # strings
     elif head == 'string':
         _, value = tokens
